@@ -19,6 +19,7 @@ ANCHORS = ["decaylanguage.decay.decay:DecayChain.to_dict", "decaylanguage.decay.
            "decaylanguage.decay.decay:DecayMode.to_dict", "decaylanguage.decay.decay:DecayMode.from_dict", "decaylanguage.decay.decay:DecayMode.from_pdgids",
            "decaylanguage.decay.decay:DaughtersDict.__init__", "decaylanguage.decay.decay:DaughtersDict.to_list"]
 WORKERS = {"quick": 4, "thorough": 16}
+WTESTS = {"groups": ['chain_to_dict', 'mode_to_dict'], "tests": ['tests/decay', 'tests/utils']}
 REQUIRED = {"same-decaying-twice-in-one-fs": 20, "same-decaying-two-depths": 20, "metadata-nested>=2": 20, "multiplicity-4": 20,
             "parser-chain": 20, "parser-chain-repeated-daughter": 5, "pdgid-all-ids": 1, "four-constructions": 100, "zero-or-negative-count-in-mapping": 10,
             "C11.chain.to_dict.roundtrip": 300, "C11.mode.to_dict.roundtrip": 300}
